@@ -1,6 +1,306 @@
-import Asts.Spec.Sync
+import Asts.Proofs.SY_b_C13Monitor
 
-/-! # C13 — property theorems (under construction) -/
+/-! # C13 — history is trimmed only beyond the limit and never loses a live revision
+
+Property theorems only; lemmas are in `Asts/Proofs/SY_b_Revs.lean`, `SY_b_Truncate.lean`, `SY_b_Log.lean`, `SY_b_Sync.lean`,
+`SY_b_SyncThms.lean`, `SY_b_Annotate.lean`, `SY_b_AdoptExact.lean`, `SY_b_ClaimExact.lean`, `SY_b_C13Pre.lean`,
+`SY_b_C13Monitor.lean` (and `SY_b_Strings.lean`, sya-prover's `parseEntry` bridge).
+
+`truncateF plan limit podRevs revs cur upd s` is the model (`Model/Sync`) of `truncateHistory` (stateful_set_control.go): `revs` is
+the sorted listing `sortRevs (listRevisions store)`, `cur`/`upd` the resolved current and update revisions, `podRevs` the
+revision labels of the claimed pods, `s` the API store + call log, `plan` the injected faults. Its API calls are logged as
+strings `delete:rev:<name>`; `SYb.truncDeletes` is the structured twin (the revisions for which a Delete call is issued,
+in order, a failed call being the last one) and `log_is_rendering` says the string log is exactly its rendering — all
+other theorems are about the structured list. `SYb.historyOf podRevs revs cur upd` is the model's `history`: the listed
+revisions owned by the set and named neither by `cur`, `upd` nor a pod label, in listing order.
+
+Everything holds for every store, every limit (negative too), every pod-label list, every fault plan, no size bounds. -/
 namespace Asts.C13
+open Asts Asts.SYb
+
+/-! ## the listing: each revision once, oldest first -/
+
+/-- `ListRevisions` yields every name at most once (the double listing of a revision that carries both the template labels
+    and the upgrade marker is gone), so each revision is counted once -/
+theorem listing_names_distinct (store : List Rev) : ((listRevisions store).map (·.name)).Nodup :=
+  listRevisions_names_nodup store
+
+/-- what is listed is stored, selected (labels or marker) and not controlled by somebody else -/
+theorem listing_sound (store : List Rev) (r : Rev) (h : r ∈ listRevisions store) :
+    r ∈ store ∧ (r.selMatch = true ∨ r.marker = true) ∧ r.owner ≠ .other :=
+  mem_listRevisions h
+
+/-- `SortControllerRevisions` is a permutation -/
+theorem sort_is_permutation (l : List Rev) : (sortRevs l).Perm l := sortRevs_perm l
+
+/-- `revLt` — (revision number, creation time, name) lexicographically — is irreflexive, transitive and total on
+    revisions with different names -/
+theorem revLt_strict_total :
+    (∀ a, revLt a a = false) ∧ (∀ a b c, revLt a b = true → revLt b c = true → revLt a c = true) ∧
+    (∀ a b : Rev, a.name ≠ b.name → revLt a b = true ∨ revLt b a = true) :=
+  ⟨revLt_irrefl, fun _ _ _ => revLt_trans, fun _ _ => revLt_total⟩
+
+/-- the sorted listing is non-descending: nothing later is strictly older than something earlier -/
+theorem sort_is_sorted (l : List Rev) : (sortRevs l).Pairwise (fun a b => revLt b a = false) := sortRevs_sorted l
+
+/-- … and on distinct names strictly ascending -/
+theorem sort_is_strictly_sorted (l : List Rev) (hn : (l.map (·.name)).Nodup) :
+    (sortRevs l).Pairwise (fun a b => revLt a b = true) :=
+  sorted_strict (sortRevs_sorted l) (sortRevs_names_nodup hn)
+
+/-- the sorted listing the reconcile works on has distinct names -/
+theorem sorted_listing_names_distinct (store : List Rev) : ((sortRevs (listRevisions store)).map (·.name)).Nodup :=
+  sorted_listing_names_nodup store
+
+/-! ## `truncateHistory` -/
+
+/-- the string log of `truncateF` is the old log followed by `delete:rev:<name>` for the structured list of deletes -/
+theorem log_is_rendering (plan : List Fault) (limit : Option Int) (podRevs : List String) (revs : List Rev) (cur upd : Rev)
+    (s : RevSt) :
+    (truncateF plan limit podRevs revs cur upd s).1.tr.log =
+      s.tr.log ++ (truncDeletes plan limit podRevs revs cur upd s).map (fun r => s!"delete:rev:{r.name}") :=
+  truncateF_log plan limit podRevs revs cur upd s
+
+/-- **(1)** every Delete targets a listed revision that this set controls and that is neither the current nor the update
+    revision nor named by the revision label of a pod -/
+theorem deletes_only_own_unused (plan : List Fault) (limit : Option Int) (podRevs : List String) (revs : List Rev)
+    (cur upd : Rev) (s : RevSt) (r : Rev) (h : r ∈ truncDeletes plan limit podRevs revs cur upd s) :
+    r ∈ revs ∧ r.owner = .self ∧ r.name ∉ cur.name :: upd.name :: podRevs :=
+  truncDeletes_mem h
+
+/-- **(2)** no name is deleted twice, given a listing with distinct names … -/
+theorem no_double_delete (plan : List Fault) (limit : Option Int) (podRevs : List String) (revs : List Rev)
+    (cur upd : Rev) (s : RevSt) (hn : (revs.map (·.name)).Nodup) :
+    ((truncDeletes plan limit podRevs revs cur upd s).map (·.name)).Nodup :=
+  truncDeletes_names_nodup hn
+
+/-- … which is what `sync` passes: the sorted `ListRevisions` of any store -/
+theorem no_double_delete_listed (plan : List Fault) (limit : Option Int) (podRevs : List String) (store : List Rev)
+    (cur upd : Rev) (s : RevSt) :
+    ((truncDeletes plan limit podRevs (sortRevs (listRevisions store)) cur upd s).map (·.name)).Nodup :=
+  truncDeletes_names_nodup (sorted_listing_names_nodup store)
+
+/-- **(3a)** a Delete is issued only if more than `lim` unused revisions exist -/
+theorem deletes_only_beyond_limit (plan : List Fault) (limit : Option Int) (podRevs : List String) (revs : List Rev)
+    (cur upd : Rev) (s : RevSt) (h : truncDeletes plan limit podRevs revs cur upd s ≠ []) :
+    ∃ lim, limit = some lim ∧ lim < ((historyOf podRevs revs cur upd).length : Int) :=
+  truncDeletes_ne_nil h
+
+/-- **(3b)** at most `#unused − lim` Deletes are issued (`lim.toNat`: a negative limit counts as 0) -/
+theorem deletes_at_most_excess (plan : List Fault) (lim : Int) (podRevs : List String) (revs : List Rev)
+    (cur upd : Rev) (s : RevSt) :
+    (truncDeletes plan (some lim) podRevs revs cur upd s).length ≤ (historyOf podRevs revs cur upd).length - lim.toNat :=
+  truncDeletes_length_le plan lim podRevs revs cur upd s
+
+/-- (3b) over the integers, for the limits the API admits -/
+theorem deletes_at_most_excess_int (plan : List Fault) (lim : Int) (hlim : 0 ≤ lim) (podRevs : List String) (revs : List Rev)
+    (cur upd : Rev) (s : RevSt) (h : truncDeletes plan (some lim) podRevs revs cur upd s ≠ []) :
+    ((truncDeletes plan (some lim) podRevs revs cur upd s).length : Int) ≤ (historyOf podRevs revs cur upd).length - lim := by
+  have h1 := truncDeletes_length_le plan lim podRevs revs cur upd s
+  obtain ⟨l, hl, hlt⟩ := truncDeletes_ne_nil h
+  cases hl
+  omega
+
+/-- **(3c)** the deleted revisions are a prefix of the unused ones in listing order … -/
+theorem deletes_are_prefix (plan : List Fault) (limit : Option Int) (podRevs : List String) (revs : List Rev)
+    (cur upd : Rev) (s : RevSt) :
+    truncDeletes plan limit podRevs revs cur upd s <+: historyOf podRevs revs cur upd :=
+  truncDeletes_prefix_history plan limit podRevs revs cur upd s
+
+/-- … hence, the listing being sorted, the oldest: no unused revision that is spared is strictly older (revision number,
+    then creation time, then name) than one that is deleted -/
+theorem deletes_are_oldest (plan : List Fault) (limit : Option Int) (podRevs : List String) (revs : List Rev)
+    (cur upd : Rev) (s : RevSt) (hs : revs.Pairwise (fun a b => revLt b a = false)) (v r : Rev)
+    (hv : v ∈ truncDeletes plan limit podRevs revs cur upd s) (hr : r ∈ historyOf podRevs revs cur upd)
+    (hrn : r ∉ truncDeletes plan limit podRevs revs cur upd s) : revLt r v = false :=
+  truncDeletes_oldest hs hv hr hrn
+
+/-- for the listing `sync` passes: every deleted revision is strictly older than every spared unused one -/
+theorem deletes_are_oldest_listed (plan : List Fault) (limit : Option Int) (podRevs : List String) (store : List Rev)
+    (cur upd : Rev) (s : RevSt) (v r : Rev)
+    (hv : v ∈ truncDeletes plan limit podRevs (sortRevs (listRevisions store)) cur upd s)
+    (hr : r ∈ historyOf podRevs (sortRevs (listRevisions store)) cur upd)
+    (hrn : r ∉ truncDeletes plan limit podRevs (sortRevs (listRevisions store)) cur upd s) : revLt v r = true :=
+  truncDeletes_oldest_strict (sortRevs_sorted _) (sorted_listing_names_nodup store) hv hr hrn
+
+/-- on success exactly the `#unused − lim` oldest were deleted (none if `#unused ≤ lim`) -/
+theorem ok_deletes_exactly_excess (plan : List Fault) (lim : Int) (podRevs : List String) (revs : List Rev) (cur upd : Rev)
+    (s : RevSt) (hok : (truncateF plan (some lim) podRevs revs cur upd s).2 = .ok) :
+    truncDeletes plan (some lim) podRevs revs cur upd s =
+      if ((historyOf podRevs revs cur upd).length : Int) ≤ lim then []
+      else (historyOf podRevs revs cur upd).take ((historyOf podRevs revs cur upd).length - lim.toNat) :=
+  (truncateF_result plan lim podRevs revs cur upd s).2.1 hok
+
+/-- **(4)** after a successful truncation at most `lim` (0 for a negative limit) of the unused revisions are still stored.
+    `hstore`: the API keeps one object per name. -/
+theorem ok_leaves_at_most_limit (plan : List Fault) (lim : Int) (podRevs : List String) (revs : List Rev) (cur upd : Rev)
+    (s : RevSt) (hstore : (s.store.map (·.name)).Nodup)
+    (hok : (truncateF plan (some lim) podRevs revs cur upd s).2 = .ok) :
+    (((truncateF plan (some lim) podRevs revs cur upd s).1.store.filter
+        (fun x => ((historyOf podRevs revs cur upd).map (·.name)).contains x.name)).length : Int) ≤ max lim 0 := by
+  have := truncateF_ok_left plan lim podRevs revs cur upd s hstore hok
+  omega
+
+/-- **never loses a live revision**: a stored revision named by `cur`, `upd` or a pod's revision label is still stored
+    afterwards, whatever the limit, the faults and the outcome -/
+theorem live_revisions_survive (plan : List Fault) (limit : Option Int) (podRevs : List String) (revs : List Rev) (cur upd : Rev)
+    (s : RevSt) (x : Rev) (hx : x ∈ s.store) (hlive : x.name ∈ cur.name :: upd.name :: podRevs) :
+    x ∈ (truncateF plan limit podRevs revs cur upd s).1.store :=
+  truncateF_keeps_live plan limit podRevs revs cur upd s hx hlive
+
+/-- the store only shrinks, and only by revisions for which a Delete was issued; everything else is left as it was -/
+theorem store_only_loses_deleted (plan : List Fault) (limit : Option Int) (podRevs : List String) (revs : List Rev) (cur upd : Rev)
+    (s : RevSt) :
+    (truncateF plan limit podRevs revs cur upd s).1.store.Sublist s.store ∧
+    ∀ x ∈ s.store, x.name ∉ (truncDeletes plan limit podRevs revs cur upd s).map (·.name) →
+      x ∈ (truncateF plan limit podRevs revs cur upd s).1.store :=
+  truncateF_store plan limit podRevs revs cur upd s
+
+/-- **(5)** a nil `revisionHistoryLimit` is the modelled nil dereference; it issues no call. Not reachable for an admitted
+    object: the CRD defaults `spec.revisionHistoryLimit` (to 10), so the API server never stores a set without it. -/
+theorem nil_limit_panics (plan : List Fault) (podRevs : List String) (revs : List Rev) (cur upd : Rev) (s : RevSt) :
+    truncateF plan none podRevs revs cur upd s = (s, .panic "nil *Spec.RevisionHistoryLimit (stateful_set_control.go)") ∧
+    truncDeletes plan none podRevs revs cur upd s = [] :=
+  ⟨rfl, rfl⟩
+
+/-- a given limit never panics: the outcome is success or the reported error of the failed Delete -/
+theorem some_limit_no_panic (plan : List Fault) (lim : Int) (podRevs : List String) (revs : List Rev) (cur upd : Rev) (s : RevSt) :
+    (truncateF plan (some lim) podRevs revs cur upd s).2 = .ok ∨ (truncateF plan (some lim) podRevs revs cur upd s).2 = .err :=
+  (truncateF_result plan lim podRevs revs cur upd s).1
+
+/-! ## one whole `sync`
+
+`syncF h i plan` is the model of `StatefulSetController.sync` + `UpdateStatefulSet`. For a finished sync `o`,
+`SYb.adoptedStore plan i` is the store after the adoption stage (same revisions; owners / labels may have changed),
+`SYb.syncListing plan i = sortRevs (listRevisions (adoptedStore plan i))` the listing the reconcile works on,
+`SYb.syncLive o = o.cur :: o.upd :: pod labels of o.claimed`, and `SYb.syncHistory plan i o` the listed revisions owned by
+the set and not named in `syncLive o`, oldest first. `SYb.pre "delete:rev:" e` says the log entry `e` starts with
+`delete:rev:` (character by character) and `SYb.delKey r = "delete:rev:" ++ r.name`.
+
+The string-level monitor `Spec.C13` is proved on `syncF` at the end of this file (`C13_monitor_true_on_model`); the statements
+here are its clauses on the structured reading of the log. -/
+
+/-- **(1)–(3) for a whole sync**, every store / pods / hashing / fault plan: the `delete:rev:` entries of the complete log,
+    in order, are the rendering of a list `d` of revisions such that `d` is a prefix of the sync's unused history —
+    so each is listed, owned by the set (possibly adopted in this very sync), not the current or update revision, not a
+    pod's label, each named once, oldest first —; `d` is empty unless the history exceeds the limit; `|d|` is at most the
+    excess; a successful sync deletes exactly the excess; and no other stored revision disappears. -/
+theorem sync_deletes (h : Hashing) (i : SyncIn) (plan : List Fault) :
+    ∃ d : List Rev,
+      (syncF h i plan).log.filter (pre "delete:rev:") = d.map delKey ∧
+      d <+: syncHistory plan i (syncF h i plan) ∧
+      (d ≠ [] → ∃ lim, i.historyLimit = some lim ∧ lim < ((syncHistory plan i (syncF h i plan)).length : Int)) ∧
+      (∀ lim, i.historyLimit = some lim → d.length ≤ (syncHistory plan i (syncF h i plan)).length - lim.toNat) ∧
+      (∀ lim, i.historyLimit = some lim → (syncF h i plan).outcome = .ok → (i.paused || !i.selectorOk) = false →
+        d = if ((syncHistory plan i (syncF h i plan)).length : Int) ≤ lim then []
+            else (syncHistory plan i (syncF h i plan)).take ((syncHistory plan i (syncF h i plan)).length - lim.toNat)) ∧
+      (∀ x ∈ adoptedStore plan i, x.name ∉ d.map (·.name) → ∃ y ∈ (syncF h i plan).store, y.name = x.name) :=
+  sync_delete_entries h i plan
+
+/-- what being in the sync's unused history means: stored (after adoption), listed by selector or marker, controlled by
+    this set, named neither by the current nor the update revision nor by a claimed pod's revision label -/
+theorem sync_history_members (plan : List Fault) (i : SyncIn) (o : SyncOut) (r : Rev) (hr : r ∈ syncHistory plan i o) :
+    r ∈ adoptedStore plan i ∧ (r.selMatch = true ∨ r.marker = true) ∧ r.owner = .self ∧
+    r.name ∉ o.cur :: o.upd :: o.claimed.map (·.pod.rev) :=
+  mem_syncHistory hr
+
+/-- the adoption stage changes owners and labels only: position by position the adopted store has the revisions of the
+    initial store with the same name, number, creation time, data, hash label and marker -/
+theorem adopted_store_same_revisions (plan : List Fault) (i : SyncIn) :
+    (adoptedStore plan i).map core = i.store.map core :=
+  (adoptedStore_adopted plan i).map_core
+
+/-- the unused history has distinct names and is strictly ascending in (revision number, creation time, name): "each
+    counted once", and a prefix of it is "the oldest" -/
+theorem sync_history_distinct_sorted (plan : List Fault) (i : SyncIn) (o : SyncOut) :
+    ((syncHistory plan i o).map (·.name)).Nodup ∧ (syncHistory plan i o).Pairwise (fun a b => revLt a b = true) :=
+  ⟨syncHistory_names_nodup plan i o, syncHistory_strict plan i o⟩
+
+/-- different revisions render to different `delete:rev:` entries -/
+theorem delete_entry_names (a b : Rev) (h : delKey a = delKey b) : a.name = b.name := delKey_inj h
+
+/-- **(4) for a whole sync**: after a successful sync (limit present, one object per name in the API) the final store
+    holds at most `lim` (0 for a negative limit) unused revisions — owned by the set, listed by selector or marker, and
+    named neither by the current nor the update revision nor by a claimed pod -/
+theorem sync_ok_at_most_limit_unused (h : Hashing) (i : SyncIn) (plan : List Fault) (lim : Int)
+    (hrun : (i.paused || !i.selectorOk) = false) (hlim : i.historyLimit = some lim)
+    (hn : (i.store.map (·.name)).Nodup) (hok : (syncF h i plan).outcome = .ok) :
+    (((syncF h i plan).store.filter (fun x => x.owner == .self && (x.selMatch || x.marker) &&
+        !(syncLive (syncF h i plan)).contains x.name)).length : Int) ≤ max lim 0 :=
+  sync_ok_history_within_limit h i plan lim hrun hlim hn hok
+
+/-- **(5) for a whole sync**: with `revisionHistoryLimit` absent a sync that gets as far as the truncation ends in the
+    modelled nil dereference — it cannot succeed. (Not reachable for admitted objects: the CRD defaults the field.) -/
+theorem sync_nil_limit_never_ok (h : Hashing) (i : SyncIn) (plan : List Fault)
+    (hrun : (i.paused || !i.selectorOk) = false) (hlim : i.historyLimit = none) : (syncF h i plan).outcome ≠ .ok := by
+  rcases sync_cases h i plan hrun with ⟨h1, _⟩ | ⟨⟨R⟩⟩
+  · exact h1
+  · rw [R.oout, hlim, truncateF_none]; simp
+
+/-! ## (6) the monitor on the model
+
+`SYb.InputOk i`: the store holds one revision per name, the pod cache one pod per name, and no such name contains ':'.
+All four parts are needed for the monitor to read the log back faithfully (they are facts about the API — object names are
+unique per kind and namespace and DNS-1123 — not about the controller): `#eval` of `Spec.C13` on the model gives `false`
+for the example world below with revision `web-a-0` renamed `web:a-0` (the monitor takes `delete:rev:web:a-0` for no call
+and then sees the second Delete as out of order), and with a second, terminating, unowned cached pod that shares the name
+of an adopted one and is labelled with an old revision (the monitor counts pods by name and so believes that revision
+live). No counterexample was found for two stored revisions of one name; the proof uses it to identify a revision before
+and after adoption. -/
+
+/-- **C13 headline**: the monitor is true on the model for every hashing, every fault plan and every input satisfying
+    `InputOk` — every store, limit (absent, negative, any), pod list, adoption / claim / fault history -/
+theorem C13_monitor_true_on_model (h : Hashing) (i : SyncIn) (plan : List Fault) (hok : InputOk i) :
+    C13 i plan (syncF h i plan).observe = true :=
+  C13_model h i plan hok
+
+/-- the monitor's sorted list of unused revisions carries, in a sync that reaches the truncation, the same names in the same
+    order as the model's history: the structured theorems above and the monitor speak about the same list -/
+theorem monitor_unused_is_model_history (h : Hashing) (i : SyncIn) (plan : List Fault) (hok : InputOk i)
+    (R : Reach h i plan (syncF h i plan)) :
+    (sortRevs ((ownListed i plan (syncF h i plan).observe).filter
+        (fun r => !(liveNames i plan (syncF h i plan).observe).contains r.name))).map (·.name) =
+      (syncHistory plan i (syncF h i plan)).map (·.name) :=
+  unused_names_eq R hok (sync_log_shapes h i plan)
+
+/-! ## the hypotheses are satisfiable: a concrete world -/
+
+def exH : Hashing := { nameOf := fun d c => s!"web-{d}-{c}", hashNumOf := fun _ _ => none }
+def exRev (nm : String) (n : Int) (d : String) : Rev :=
+  { name := nm, number := n, ctime := n, data := d, hashNum := none, owner := .self, selMatch := true, marker := false }
+def exStore : List Rev := [exRev "web-a-0" 1 "a", exRev "web-b-0" 2 "b", exRev "web-c-0" 3 "c", exRev "web-d-0" 4 "d"]
+def exPod (k : Nat) (rev : String) : CPod :=
+  { name := s!"web-{k}",
+    pod := { id := k, ord := k, phase := .running, ready := true, terminating := false, rev := rev, idOk := true, stOk := true },
+    owner := .self, selMatch := true, member := true }
+/-- a set at template `d` (revision 4), two healthy pods, three unused revisions, history limit 1 -/
+def exIn : SyncIn :=
+  { setName := "web", paused := false, selectorOk := true,
+    view := { replicas := some 2, slots := [], parallel := false, strat := .rolling, ru := some (some 0), deleting := false,
+              generation := 3, stCurrentReplicas := 2 },
+    stored := { replicas := 2, ready := 2, current := 2, updated := 2, currentRev := "web-d-0", updateRev := "web-d-0",
+                observedGen := 3 },
+    collisionCount := some 0, historyLimit := some 1, template := "d",
+    fresh := { gone := false, uidOk := true, deleting := false },
+    store := exStore, pods := [exPod 0 "web-d-0", exPod 1 "web-d-0"] }
+
+/-- the hypothesis of the headline holds in the example world -/
+example : InputOk exIn := ⟨by decide, by decide, by decide, by decide⟩
+
+/-- three unused revisions, limit 1: the two oldest are deleted, in order, and the sync succeeds with one left -/
+example : (exStore.map (·.name)).Nodup ∧ (syncF exH exIn []).outcome = .ok ∧
+    (syncHistory [] exIn (syncF exH exIn [])).map (·.name) = ["web-a-0", "web-b-0", "web-c-0"] ∧
+    (syncF exH exIn []).log.filter (pre "delete:rev:") = ["delete:rev:web-a-0", "delete:rev:web-b-0"] ∧
+    (syncF exH exIn []).store.map (·.name) = ["web-c-0", "web-d-0"] := by decide
+
+/-- a failed Delete is the last one, is reported, and leaves what it did not delete -/
+example :
+    (syncF exH exIn [⟨"delete:rev:web-b-0", 0, .other⟩]).outcome = .err ∧
+    (syncF exH exIn [⟨"delete:rev:web-b-0", 0, .other⟩]).log.filter (pre "delete:rev:") = ["delete:rev:web-a-0", "delete:rev:web-b-0"] ∧
+    (syncF exH exIn [⟨"delete:rev:web-b-0", 0, .other⟩]).store.map (·.name) = ["web-b-0", "web-c-0", "web-d-0"] := by decide
+
+/-- a pod still labelled with an old revision keeps it alive -/
+example : (syncF exH { exIn with pods := [exPod 0 "web-a-0", exPod 1 "web-d-0"], historyLimit := some 0 } []).store.map (·.name) =
+    ["web-a-0", "web-d-0"] := by decide
 
 end Asts.C13
